@@ -167,7 +167,7 @@ def main(argv=None):
                     pj["twin_failed"] = pj.get("twin_failed", 0) + len(st.get("failed", []))
                     pj["paths"] = pj.get("paths", 0) + st.get("paths", 0)
                     total["twin_paths"] = total.get("twin_paths", 0) + st.get("paths", 0)
-                    total.setdefault("engine_errors", []).extend(e for e in st.get("engine_errors", []) if "path cap" not in e)
+                    total.setdefault("engine_errors", []).extend(e for e in st.get("engine_errors", []) if "path cap" not in e and "stopped after" not in e)
                     continue
                 merge_stats(pj, st)
                 pj["wall"] = pj.get("wall", 0) + st.get("wall", 0)
